@@ -92,6 +92,10 @@ def tx_menu(w):
         out['dup-reference'] = world.mk_tx([(r, K[0]), (r, K[0])], [(v, K[1])])
         out['zero-value'] = world.mk_tx([(r, K[0])], [(0, K[1]), (v - 9, K[1])])
         out['over-limit-value'] = world.mk_tx([(r, K[0])], [(refmodel.MAX_SASHIMI + 1, K[1])])
+        # the same boundary values in other positions of the output list
+        out['zero-value-second'] = world.mk_tx([(r, K[0])], [(v - 9, K[1]), (0, K[1])])
+        out['zero-value-middle-of-three'] = world.mk_tx([(r, K[0])], [(v - 19, K[1]), (0, K[2]), (10, K[0])])
+        out['over-limit-total-three-outputs'] = world.mk_tx([(r, K[0])], [(refmodel.MAX_SASHIMI // 2, K[1])] * 3)
         from skepticoin.datatypes import Input, Transaction, Output
         from skepticoin.signing import SignableEquivalent
         out['placeholder-signature'] = Transaction([Input(r, SignableEquivalent())], [Output(v - 11, K[1].pk)])
